@@ -184,6 +184,8 @@ pub struct World {
     pub oracle_model: Vec<u128>,
     pub alien_vamm: Option<Addr>,
     pub orphan_vamm: Option<Addr>,
+    /// history model of funding (advanced by `run_history` only)
+    pub fmodel: crate::oracle::FundingModel,
 }
 
 fn c_cw20() -> Box<dyn Contract<Empty>> {
@@ -687,6 +689,7 @@ impl World {
             oracle_model: cfg.vamms.iter().map(|v| v.oracle_price).collect(),
             alien_vamm,
             orphan_vamm,
+            fmodel: Default::default(),
         };
         // a deployment is used from the block after its creation (see DESIGN C15)
         w.next_block(15, 1);
